@@ -77,6 +77,98 @@ theorem season_polynomial (year : Int) (k : Fin 4) (hy : -1000 ≤ year ∧ year
     season_jde0 year (k : Int) = .ok (Spec.SunEvents.jde0 year k) := by
   exact season_jde0_eq_spec year k hy
 
+/-- "the four instants of a year are in order and 88-95 days apart" — PARTIAL: proved for the four
+    APPROXIMATE instants `jde0` the search starts from (Meeus' tables), for every year −1000 … 3000:
+    spring < summer < autumn < winter, consecutive ones 88 to 95 days apart.
+    Full clause (measured by the harness for all 4001 years): the same for the RETURNED instants.
+    Missing: a bound on the sum of the loop's corrections `58·sin(k·90° − λ)`, i.e. on how far the
+    VSOP87 longitude at `jde0` is from `k·90°` — an agreement between two independent series. -/
+theorem season_order_partial (year : Int) (hy : -1000 ≤ year ∧ year ≤ 3000) :
+    ∃ j0 j1 j2 j3 : ℝ, season_jde0 year 0 = .ok j0 ∧ season_jde0 year 1 = .ok j1 ∧
+      season_jde0 year 2 = .ok j2 ∧ season_jde0 year 3 = .ok j3 ∧
+      88 ≤ j1 - j0 ∧ j1 - j0 ≤ 95 ∧ 88 ≤ j2 - j1 ∧ j2 - j1 ≤ 95 ∧ 88 ≤ j3 - j2 ∧ j3 - j2 ≤ 95 := by
+  have e0 := season_jde0_eq_spec year 0 hy
+  have e1 := season_jde0_eq_spec year 1 hy
+  have e2 := season_jde0_eq_spec year 2 hy
+  have e3 := season_jde0_eq_spec year 3 hy
+  refine ⟨_, _, _, _, e0, e1, e2, e3, ?_⟩
+  have hyr : (-1000 : ℝ) ≤ year ∧ (year : ℝ) ≤ 3000 := ⟨by exact_mod_cast hy.1, by exact_mod_cast hy.2⟩
+  unfold Spec.SunEvents.jde0
+  split_ifs with h1
+  · have h1r : (year : ℝ) < 1000 := by exact_mod_cast h1
+    have hY : |(year : ℝ) / 1000| ≤ 1 := by rw [abs_le]; constructor <;> linarith
+    have l10 := poly4_ge (rowSub (Spec.SunEvents.table27A 1) (Spec.SunEvents.table27A 0)) _ hY
+    have u10 := poly4_le (rowSub (Spec.SunEvents.table27A 1) (Spec.SunEvents.table27A 0)) _ hY
+    have l21 := poly4_ge (rowSub (Spec.SunEvents.table27A 2) (Spec.SunEvents.table27A 1)) _ hY
+    have u21 := poly4_le (rowSub (Spec.SunEvents.table27A 2) (Spec.SunEvents.table27A 1)) _ hY
+    have l32 := poly4_ge (rowSub (Spec.SunEvents.table27A 3) (Spec.SunEvents.table27A 2)) _ hY
+    have u32 := poly4_le (rowSub (Spec.SunEvents.table27A 3) (Spec.SunEvents.table27A 2)) _ hY
+    rw [← poly4_sub] at l10 u10 l21 u21 l32 u32
+    generalize Spec.SunEvents.poly4 (Spec.SunEvents.table27A 0) ((year : ℝ) / 1000) = p0 at *
+    generalize Spec.SunEvents.poly4 (Spec.SunEvents.table27A 1) ((year : ℝ) / 1000) = p1 at *
+    generalize Spec.SunEvents.poly4 (Spec.SunEvents.table27A 2) ((year : ℝ) / 1000) = p2 at *
+    generalize Spec.SunEvents.poly4 (Spec.SunEvents.table27A 3) ((year : ℝ) / 1000) = p3 at *
+    simp only [rowSub, Spec.SunEvents.table27A] at l10 u10 l21 u21 l32 u32
+    norm_num [abs_of_pos, abs_of_neg] at l10 u10 l21 u21 l32 u32
+    refine ⟨?_, ?_, ?_, ?_, ?_, ?_⟩ <;> linarith
+  · have h1r : (1000 : ℝ) ≤ year := by exact_mod_cast (not_lt.mp h1)
+    have hY : |((year : ℝ) - 2000) / 1000| ≤ 1 := by rw [abs_le]; constructor <;> linarith
+    have l10 := poly4_ge (rowSub (Spec.SunEvents.table27B 1) (Spec.SunEvents.table27B 0)) _ hY
+    have u10 := poly4_le (rowSub (Spec.SunEvents.table27B 1) (Spec.SunEvents.table27B 0)) _ hY
+    have l21 := poly4_ge (rowSub (Spec.SunEvents.table27B 2) (Spec.SunEvents.table27B 1)) _ hY
+    have u21 := poly4_le (rowSub (Spec.SunEvents.table27B 2) (Spec.SunEvents.table27B 1)) _ hY
+    have l32 := poly4_ge (rowSub (Spec.SunEvents.table27B 3) (Spec.SunEvents.table27B 2)) _ hY
+    have u32 := poly4_le (rowSub (Spec.SunEvents.table27B 3) (Spec.SunEvents.table27B 2)) _ hY
+    rw [← poly4_sub] at l10 u10 l21 u21 l32 u32
+    generalize Spec.SunEvents.poly4 (Spec.SunEvents.table27B 0) (((year : ℝ) - 2000) / 1000) = p0 at *
+    generalize Spec.SunEvents.poly4 (Spec.SunEvents.table27B 1) (((year : ℝ) - 2000) / 1000) = p1 at *
+    generalize Spec.SunEvents.poly4 (Spec.SunEvents.table27B 2) (((year : ℝ) - 2000) / 1000) = p2 at *
+    generalize Spec.SunEvents.poly4 (Spec.SunEvents.table27B 3) (((year : ℝ) - 2000) / 1000) = p3 at *
+    simp only [rowSub, Spec.SunEvents.table27B] at l10 u10 l21 u21 l32 u32
+    norm_num [abs_of_pos, abs_of_neg] at l10 u10 l21 u21 l32 u32
+    refine ⟨?_, ?_, ?_, ?_, ?_, ?_⟩ <;> linarith
+
+/-- "successive same-season instants are 365.2-365.3 days apart" — PARTIAL, as above: proved for the
+    APPROXIMATE instants `jde0` of every pair of consecutive years in −1000 … 3000 and each season,
+    including the pair 999/1000 where the code switches from table 27.A to table 27.B.
+    Full clause (measured): the same for the returned instants; missing: the same bound on the
+    loop's corrections as in `season_order_partial`. -/
+theorem season_year_partial (year : Int) (k : Fin 4) (hy : -1000 ≤ year ∧ year ≤ 2999) :
+    ∃ j j' : ℝ, season_jde0 year k = .ok j ∧ season_jde0 (year + 1) k = .ok j' ∧
+      365.2 ≤ j' - j ∧ j' - j ≤ 365.3 := by
+  have e := season_jde0_eq_spec year k ⟨hy.1, by omega⟩
+  have e' := season_jde0_eq_spec (year + 1) k ⟨by omega, by omega⟩
+  refine ⟨_, _, e, e', ?_⟩
+  have hyr : (-1000 : ℝ) ≤ year ∧ (year : ℝ) ≤ 2999 := ⟨by exact_mod_cast hy.1, by exact_mod_cast hy.2⟩
+  unfold Spec.SunEvents.jde0
+  by_cases h1 : year + 1 < 1000
+  · have h0 : year < 1000 := by omega
+    have h0r : (year : ℝ) < 999 := by exact_mod_cast (by omega : year < 999)
+    simp only [h1, h0, if_true]
+    have hY : |(year : ℝ) / 1000| ≤ 1 := by rw [abs_le]; constructor <;> linarith
+    have eY : (((year + 1 : ℤ) : ℝ)) / 1000 = (year : ℝ) / 1000 + 1 / 1000 := by push_cast; ring
+    rw [eY]
+    have st := abs_le.mp (poly4_step (Spec.SunEvents.table27A k) _ hY)
+    generalize Spec.SunEvents.poly4 (Spec.SunEvents.table27A k) ((year : ℝ) / 1000 + 1 / 1000) = q at *
+    generalize Spec.SunEvents.poly4 (Spec.SunEvents.table27A k) ((year : ℝ) / 1000) = p at *
+    fin_cases k <;> simp only [Spec.SunEvents.table27A] at st <;>
+      norm_num [abs_of_pos, abs_of_neg] at st <;> constructor <;> linarith [st.1, st.2]
+  · by_cases h2 : year < 1000
+    · have h999 : year = 999 := by omega
+      subst h999
+      simp only [Spec.SunEvents.poly4]
+      fin_cases k <;> norm_num [Spec.SunEvents.table27A, Spec.SunEvents.table27B]
+    · have h1000r : (1000 : ℝ) ≤ year := by exact_mod_cast (not_lt.mp h2)
+      simp only [h1, h2, if_false]
+      have hY : |((year : ℝ) - 2000) / 1000| ≤ 1 := by rw [abs_le]; constructor <;> linarith
+      have eY : ((((year + 1 : ℤ) : ℝ)) - 2000) / 1000 = ((year : ℝ) - 2000) / 1000 + 1 / 1000 := by push_cast; ring
+      rw [eY]
+      have st := abs_le.mp (poly4_step (Spec.SunEvents.table27B k) _ hY)
+      generalize Spec.SunEvents.poly4 (Spec.SunEvents.table27B k) (((year : ℝ) - 2000) / 1000 + 1 / 1000) = q at *
+      generalize Spec.SunEvents.poly4 (Spec.SunEvents.table27B k) (((year : ℝ) - 2000) / 1000) = p at *
+      fin_cases k <;> simp only [Spec.SunEvents.table27B] at st <;>
+        norm_num [abs_of_pos, abs_of_neg] at st <;> constructor <;> linarith [st.1, st.2]
+
 /-- Loop post-condition (partial correctness, ANY solar-longitude function, ANY Epoch constructor):
     if `get_equinox_solstice` returns an instant `e`, there is an instant `eLast` — the last one at
     which the solar longitude was evaluated — such that the correction `corr = 58 sin(k·90° − λ(eLast))`
